@@ -13,6 +13,7 @@ import (
 // WParams describes a closed "N writers on one channel" driver.
 type WParams struct {
 	Cfg     ChanCfg
+	Wrap    Wrap   // library buffering wrapper between channel and mock (zero: none)
 	Writers [][]EP // per writer thread: the entry point of each of its calls
 	Sizes   []int  // payload size per call in flattening order (missing = 3)
 	Bound   int
@@ -40,6 +41,9 @@ func (p WParams) name() string {
 		ws = append(ws, strings.Join(es, ","))
 	}
 	s := fmt.Sprintf("%s/%s", p.Cfg, strings.Join(ws, "|"))
+	if p.Wrap != (Wrap{}) {
+		s = fmt.Sprintf("%s+%s/%s", p.Cfg, p.Wrap, strings.Join(ws, "|"))
+	}
 	if len(p.Sizes) > 0 {
 		s += fmt.Sprintf("/sizes=%v", p.Sizes)
 	}
@@ -61,7 +65,7 @@ func WriteScenario(p WParams, check func(x *vsched.Exec, o *WObs) []explore.Find
 		Init:   func() any { return &WObs{} },
 		Body: func(v any) {
 			o := v.(*WObs)
-			o.Env = NewEnv(p.Cfg, nil)
+			o.Env = NewEnvWrap(p.Cfg, p.Wrap, nil)
 			o.Idle0, _, _, o.PrivOK = ChanState(o.Env.Ch)
 			id := 1
 			for i, eps := range p.Writers {
